@@ -688,6 +688,12 @@ func resultNames(sig *types.Signature, c *FuncContract) []string {
 			default:
 				nm = fmt.Sprintf("result%d", i)
 			}
+			// a parameter that is itself called "result" keeps the name; the unnamed result is then "ret"
+			for j := 0; j < sig.Params().Len(); j++ {
+				if sig.Params().At(j).Name() == nm {
+					nm = "ret"
+				}
+			}
 		}
 		ns = append(ns, nm)
 	}
@@ -1184,6 +1190,7 @@ var extAliases = map[string]struct {
 }{
 	"Coins.AmountOf":                      {"(github.com/cosmos/cosmos-sdk/types.Coins).AmountOf", "Int"},
 	"Coins.IsZero":                        {"(github.com/cosmos/cosmos-sdk/types.Coins).IsZero", "Bool"},
+	"Coins.IsValid":                       {"(github.com/cosmos/cosmos-sdk/types.Coins).IsValid", "Bool"},
 	"Coins.IsAllGTE":                      {"(github.com/cosmos/cosmos-sdk/types.Coins).IsAllGTE", "Bool"},
 	"Coins.IsAllGT":                       {"(github.com/cosmos/cosmos-sdk/types.Coins).IsAllGT", "Bool"},
 	"Coins.MulInt":                        {"(github.com/cosmos/cosmos-sdk/types.Coins).MulInt", "sdk.Coins"},
